@@ -55,6 +55,7 @@ func checkEngineInvariants(r *Run, prog *Program, pfx string) {
 	}
 	r.Analysed(rd.String())
 	ps2 := NewPathSim(prog)
+	ps2.NoTables = true // the error variable is recognised by its name: its load stays symbolic
 	okR, sawErr := true, false
 	for _, sm := range ps2.Run(rd) {
 		var dec *Event
